@@ -263,6 +263,8 @@ func (update *Update) compress() *compressedUpdate {
 
 func (update *Update) uncompress(c *compressedUpdate) {
 	update.SignedAccumulator = c.SignedAccumulator
+	// A product cached for the events this value held before does not belong to the new ones.
+	update.product, update.productFrom = nil, 0
 	if c.E != nil {
 		update.Events = c.E.Events
 	} else {
@@ -431,6 +433,9 @@ func (el *EventList) compress() *compressedEventList {
 }
 
 func (el *EventList) uncompress(c *compressedEventList) {
+	// Nothing of what this value held before may survive: not its events when the new list has none,
+	// nor the product and the verdict cached for them.
+	el.Events, el.product, el.validationErr = nil, nil, nil
 	if len(c.E) != 0 {
 		el.Events = make([]*Event, len(c.E))
 	}
